@@ -3,7 +3,10 @@
 # test suite), store it under /verif/seeded/<PID>/, apply it to /repo, run the given checks (default: the property's own), undo.
 PID=$1; shift
 CHECKS=${@:-$PID}
-WT=/tmp/seed_$PID; OUT=/tmp/seed_${PID}_out; DST=/verif/seeded/$PID
+# ROUND=2 (3, ...): later rounds of seeding live in /tmp/seed2_<PID> and are stored as seeded/<PID>_r2
+R=${ROUND:-1}
+if [ "$R" = 1 ]; then WT=/tmp/seed_$PID; OUT=/tmp/seed_${PID}_out; DST=/verif/seeded/$PID
+else WT=/tmp/seed${R}_$PID; OUT=/tmp/seed${R}_${PID}_out; DST=/verif/seeded/${PID}_r$R; fi
 mkdir -p $DST
 cp -r $OUT/* $DST/ 2>/dev/null
 [ -d $WT ] && git -C $WT diff > $DST/patch.diff
